@@ -115,22 +115,12 @@ def r4(R4, cfg, F):
         R4.missing(cfg, 'Cache::load_entry')
     b = F.body('<T as anycache::Cache>::get_cached_entry_inner')
     if b:
-        hr = [c for c in b.calls() if c.callee and c.callee.name == 'is_hot_reloaded']
-        rl = [c for c in b.calls() if c.callee and c.callee.name == 'reloader']
         ar = [c for c in b.calls() if c.callee and c.callee.best == REC + 'add_record']
-        ok = len(hr) == 1 and len(rl) == 1 and len(ar) == 1
+        ok = len(ar) == 1
         if ok:
-            sw1 = [bb for bb, t in b.terms() if t['k'] == 'switch' and b.access_path(t['discr']) == ['call@bb%d' % hr[0].bb]]
-            sw2 = b.primary_switch(rl[0].dest['l'])
-            ok = len(sw1) == 1 and sw2 is not None
-            if ok:
-                t1 = [d for d, lab in b.edges(sw1[0]) if lab != 'sw:0']
-                t2 = b.variant_edge(sw2, 1)
-                # add_record exactly on (hot-reloaded AND reloader present): both the present and the absent arm
-                ok = ar[0].bb not in b.reachable([0], removed_edges=[(sw1[0], t1[0])]) and ar[0].bb not in b.reachable([0], removed_edges=[(sw2, t2)])
-                # every path through both true edges records
-                ok = ok and not (b.reachable([t2], removed_blocks=[ar[0].bb]) & set(b.return_blocks()))
-                ok = ok and b.access_path(ar[0].args[2]) == ['arg3', 'type_id']
+            # add_record exactly on (hot-reloaded AND reloader present), whether the entry is present or absent
+            ok, _why = common.runs_iff_hot_reloaded_and_reloader(b, ar[0])
+            ok = ok and common.deep_path(b, ar[0].args[2]) == ['arg3', 'type_id']
         R4.check(ok, cfg, b.path, 'records-asset-dep-present-or-absent', 'get_cached must record the (id,type) dependency whether or not the entry exists, exactly when the type is hot-reloaded and a reloader exists', b.loc())
     else:
         R4.missing(cfg, 'Cache::get_cached_entry_inner')
